@@ -84,11 +84,15 @@ CollapseFails(r) ==
             [] k = "render" -> r.path = PU!RenderPath(r.comps)
             [] k = "inside_buffer" -> r.inside
             [] k = "collapsed" -> r.result \in PU!CollapseAllowed(r.comps) }
-\* the children a location addresses: the root table, or the table below the sub-tree port named loc
+\* the children a location addresses: the root table, or the table below the sub-tree port(s) named by loc (any depth)
+RECURSIVE ChildrenAt(_, _)
 ChildrenAt(tb, loc) ==
   IF loc = <<>> \/ loc = <<47>> THEN tb.ports
-  ELSE LET hit == { i \in 1..Len(tb.ports) : ~ tb.ports[i].leaf /\ <<47>> \o tb.ports[i].name = loc } IN
-       IF hit = {} THEN <<>> ELSE tb.ports[CHOOSE i \in hit : TRUE].sub.ports
+  ELSE LET hit == { i \in 1..Len(tb.ports) : ~ tb.ports[i].leaf /\ IsPfx(<<47>> \o tb.ports[i].name, loc) } IN
+       IF hit = {} THEN <<>>
+       ELSE LET i == CHOOSE j \in hit : TRUE  nm == <<47>> \o tb.ports[i].name IN
+            IF Len(nm) = Len(loc) THEN tb.ports[i].sub.ports
+            ELSE ChildrenAt(tb.ports[i].sub, SubSeq(loc, Len(nm), Len(loc)))      \* the rest starts with the '/' that ends the sub-tree's name
 AsChildren(ps) == [i \in 1..Len(ps) |-> [name |-> ps[i].name, meta |-> ps[i].meta]]
 \* decode the reply: "/paths" , (s name, b metadata)* , optionally preceded by the two query strings
 ReplyPairs(d, skip) == [i \in 1..((Len(d.args) - skip) \div 2) |-> [name |-> d.args[skip + 2 * i - 1].v, meta |-> d.args[skip + 2 * i].v]]
